@@ -80,7 +80,8 @@ static Plan c14_gen(uint64_t seed, int tier, uint64_t index) {
         case 7: p.ops.push_back(Op("advance", (int64_t) ADV[r.below(sizeof ADV / sizeof ADV[0])])); break;
         case 8: p.ops.push_back(Op("fatal", c, (int64_t) r.below(2))); break;                                                                       // resume (or connect) and have a fatal alert hit the session
         case 9: p.ops.push_back(Op("fill", (int64_t) (5 + r.below(40)))); break;
-        case 10: p.ops.push_back(Op("addkey", (int64_t) (2 + r.below(3)))); break;
+        case 10: if (r.chance(1, 4)) { p.ops.push_back(Op("midrm", c, (int64_t) r.below(3), (int64_t) r.below(3), (int64_t) r.below(2) * 2)); p.ops.push_back(Op("resume", c, 0)); break; }
+                 p.ops.push_back(Op("addkey", (int64_t) (2 + r.below(3)))); break;
         case 11: p.ops.push_back(Op("rmkey", (int64_t) (1 + r.below(4)))); break;
         case 12: if (r.chance(1, 2)) { p.ops.push_back(Op("foreign", c)); } else { p.ops.push_back(Op("halfopen", c, (int64_t) r.below(2), (int64_t) r.next() % 100000, (int64_t) r.below(8))); p.ops.push_back(Op("resume", c, 0)); } break;                                                                                          // full handshake with the foreign server: the sid now holds its ticket/psk
         case 13: if (r.chance(1, 4)) { p.ops.push_back(Op("nested", c, (int64_t) r.below(NCLIENTS), (int64_t) r.below(2), (int64_t) r.below(2) * 2)); p.ops.push_back(Op("graft", c, (int64_t) r.below(NCLIENTS), 1)); p.ops.push_back(Op("resume", c, 0)); break; }
@@ -148,6 +149,12 @@ static std::vector<Plan> c14_fixed(int tier) {
                     Plan p; p.seed = 152000 + (uint64_t) ((kind * 3 + ver) * 2 + tk);
                     p.cfg["kind"] = kind ? KK_EC256 : KK_RSA2048;
                     p.ops.push_back(Op("full", 0, ver, 7, tk)); p.ops.push_back(Op("resume", 0, 4)); p.ops.push_back(Op("resume", 0, 0));
+                    v.push_back(p);
+                }
+                if (tk) {   // every ticket key withdrawn between the two server flights of a ticket-issuing handshake, then a resumption with whatever the client got
+                    Plan p; p.seed = 155000 + (uint64_t) ((kind * 3 + ver) * 2);
+                    p.cfg["kind"] = kind ? KK_EC256 : KK_RSA2048;
+                    p.ops.push_back(Op("midrm", 0, 0, ver, 0)); p.ops.push_back(Op("resume", 0, 0)); p.ops.push_back(Op("full", 1, ver, 7, 1)); p.ops.push_back(Op("resume", 1, 0));
                     v.push_back(p);
                 }
                 if (ver < 2 && !tk) {   // two full handshakes nested (B inside A), then each presents the other's id with its own secret, then both resume honestly
@@ -501,6 +508,28 @@ void Hist::run() {
             if (oa == ob) { ob = (oa + 1) % NCLIENTS; }
             Op outer("full", oa, op.c, 7, op.d), inner("full", ob, op.c, 7, op.d);
             connect(oa, 0, outer, [&]() { connect(ob, 0, inner); });
+        }
+        else if (op.k == "midrm") {
+            // the server application withdraws ALL ticket keys while client a's ticket-issuing handshake is between the server's two flights
+            // (the decision to issue a ticket was taken at the ClientHello), and loads a key again afterwards
+            int oa = (int) ((uint64_t) op.a % NCLIENTS);
+            Op outer("full", oa, op.c, 7, 1 | (op.d & 2));
+            connect(oa, 0, outer, [&]() {
+                std::vector<int> ids(ticket_keys[0].begin(), ticket_keys[0].end());
+                for (int id : ids) {
+                    unsigned char name[16], sym[32], mac[32]; ticket_key_material(id, name, sym, mac);
+                    vsim_set_node(NODE_SERVER);
+                    if (matrixSslDeleteSessionTicketKey(skeys[0], name) >= 0) { ticket_keys[0].erase(id); key_order[0].erase(std::find(key_order[0].begin(), key_order[0].end(), id)); counters["ticket_key_removed_mid_handshake"]++; }
+                }
+                vsim_set_node(NODE_HARNESS);
+            });
+            int id = 2 + (int) ((uint64_t) op.b % 3);
+            if (!ticket_keys[0].count(id)) {
+                unsigned char name[16], sym[32], mac[32]; ticket_key_material(id, name, sym, mac);
+                vsim_set_node(NODE_SERVER);
+                if (matrixSslLoadSessionTicketKeys(skeys[0], name, sym, 32, mac, 32) >= 0) { ticket_keys[0].insert(id); key_order[0].push_back(id); }
+                vsim_set_node(NODE_HARNESS);
+            }
         }
         else if (op.k == "graft") { graft((int) ((uint64_t) op.a % NCLIENTS), (int) ((uint64_t) op.b % NCLIENTS), op); }
         else if (op.k == "halfopen") { forge_halfopen((int) ((uint64_t) op.a % NCLIENTS), op); }
